@@ -371,7 +371,6 @@ func checkWindow(c *Ctx, r *Report, fd *ast.FuncDecl, p *packages.Package) {
 	}
 }
 
-
 // ---------------------------------------------------------------------------------------------------------------
 // S-THRESH: the comparators and the low-contrast rule on which exact binarisation of bilevel images rests
 // ---------------------------------------------------------------------------------------------------------------
@@ -577,8 +576,8 @@ func checkThresholds(c *Ctx, r *Report) {
 			}
 			npos := 0
 			for _, cd := range a.Conds {
-				if cd.op == token.GTR && !cd.neg {
-					if rc, isC := cd.r.isConst(); isC && rc.Sign() == 0 && len(kAtomsOf(cd.l)) == 1 {
+				if l, rr, strict, ok := cd.lessForm(); ok && strict { // 0 < y, 0 < x
+					if lc, isC := l.isConst(); isC && lc.Sign() == 0 && len(kAtomsOf(rr)) == 1 {
 						npos++
 					}
 				}
